@@ -340,7 +340,16 @@ impl AbstractTree for BlobTree {
     }
 
     fn stale_blob_bytes(&self) -> u64 {
-        self.current_version().gc_stats().stale_bytes()
+        let version = self.current_version();
+
+        // NOTE: Only count blob files that are still part of the version:
+        // blob files dropped together with their tables leave their stats behind
+        version
+            .gc_stats()
+            .iter()
+            .filter(|(id, _)| version.blob_files.contains_key(**id))
+            .map(|(_, entry)| entry.on_disk_bytes)
+            .sum()
     }
 
     fn filter_size(&self) -> u64 {
